@@ -16,6 +16,7 @@ import (
 	"go/ast"
 	"go/token"
 	"go/types"
+	"path/filepath"
 	"sort"
 	"strconv"
 	"strings"
@@ -602,6 +603,139 @@ func init() {
 			emitTable(&tb, "runCheck_table", "((list string * ((bool * bool * bool * bool) * Z)) * list (Z * bool)) * bool", rows)
 		}
 
+		// ---- checkCircularDependencies: the project roots among the targets, and the loop over them --------------
+		fdr := findFunc(cmd, "check.go", "", "dependencyProjectRoots")
+		fcd := findFunc(cmd, "check.go", "CheckCommand", "checkCircularDependencies")
+		if fdr == nil || fcd == nil {
+			fail("gen_check: dependencyProjectRoots / checkCircularDependencies not found")
+		} else {
+			// a target = an absolute path as spelled; the model sees its cleaned components (names as numbers)
+			nameNo := map[string]int{"p": 1, "a": 2, "b": 3, "ab": 4, "q": 5}
+			comps := func(p string) (string, bool) {
+				var xs []string
+				for _, c := range strings.Split(filepath.Clean(p), "/") {
+					if c == "" {
+						continue
+					}
+					n, ok := nameNo[c]
+					if !ok {
+						return "", false
+					}
+					xs = append(xs, fmt.Sprintf("%d%%N", n))
+				}
+				return "[" + strings.Join(xs, "; ") + "]", true
+			}
+			spellings := []string{"/p", "/p/a", "/p/a/b", "/p/b", "/p/ab", "/q", "/p/a/", "/p/b/../a", "/"}
+			var lists [][]string
+			for _, x := range spellings {
+				lists = append(lists, []string{x})
+				for _, y := range spellings {
+					lists = append(lists, []string{x, y})
+				}
+			}
+			short := []string{"/p", "/p/a", "/p/a/b", "/p/ab", "/q", "/p/a/"}
+			for _, x := range short {
+				for _, y := range short {
+					for _, z := range short {
+						lists = append(lists, []string{x, y, z})
+					}
+				}
+			}
+			lists = append(lists, []string{"/p/a/b", "/p/a", "/p", "/p/a/b"}, []string{"/q", "/p/a", "/q", "/p/a/b", "/p/a"})
+			var rows []string
+			bad := false
+			for _, l := range lists {
+				sl := &Slice{}
+				var as []string
+				for _, x := range l {
+					sl.E = append(sl.E, x)
+					c, _ := comps(x)
+					as = append(as, c)
+				}
+				v, err := in.call1(cmd, fdr, nil, sl)
+				rs, isSlice := v.(*Slice)
+				if err != nil || !isSlice || rs == nil {
+					if !bad {
+						fail("gen_check: dependencyProjectRoots cannot be evaluated on %v: %v", l, err)
+					}
+					bad = true
+					continue
+				}
+				var outs []string
+				for _, e := range rs.E {
+					s, _ := e.(string)
+					c, ok := comps(s)
+					if !ok {
+						fail("gen_check: dependencyProjectRoots returned %q, which is not one of the targets", s)
+					}
+					outs = append(outs, c)
+				}
+				rows = append(rows, fmt.Sprintf("([%s], [%s])", strings.Join(as, "; "), strings.Join(outs, "; ")))
+			}
+			if v, err := in.call1(cmd, fdr, nil, &Slice{}); err != nil {
+				fail("gen_check: dependencyProjectRoots cannot be evaluated without targets: %v", err)
+			} else if rs, ok := v.(*Slice); !ok || rs == nil || len(rs.E) != 1 || rs.E[0] != "." {
+				fail("gen_check: dependencyProjectRoots() without targets is not [\".\"]")
+			}
+			if bad {
+				rows = nil
+			}
+			emitTable(&tb, "dependencyProjectRoots_table", "list (list N) * list (list N)", rows)
+
+			// the loop: per root (cycles, error) -> (total, error); distinct unrelated targets, so every target is a root
+			type rootRes struct {
+				n   int64
+				err bool
+			}
+			var crow []string
+			bad = false
+			for _, rr := range [][]rootRes{{}, {{n: 0}}, {{n: 2}}, {{err: true}}, {{n: 1}, {n: 2}}, {{n: 0}, {n: 3}}, {{n: 3}, {n: 0}}, {{n: 1}, {err: true}},
+				{{err: true}, {n: 2}}, {{n: 1}, {n: 2}, {n: 4}}, {{n: 1}, {err: true}, {n: 4}}, {{n: 0}, {n: 0}, {n: 0}}, {{n: 2}, {n: 0}, {err: true}}} {
+				st := newCheckStubs()
+				k := 0
+				res := rr
+				st.calls["c.checkCircularDependenciesIn"] = func(c *CallCtx) []Value {
+					r := res[k%len(res)]
+					k++
+					if r.err {
+						return []Value{int64(0), &ErrVal{Msg: "root failed"}}
+					}
+					return []Value{r.n, nil}
+				}
+				in.Extern = st.hook
+				sl := &Slice{}
+				for i := range rr {
+					sl.E = append(sl.E, fmt.Sprintf("/t%d", i))
+				}
+				if len(rr) == 0 {
+					// no target: one root (the working directory), here without cycles
+					res = []rootRes{{}}
+				}
+				vs, err := in.CallFunc(cmd, fcd, mkStruct("CheckCommand", "quiet", true), mkStruct("cobra.Command"), sl)
+				in.Extern = nil
+				if err != nil || len(vs) != 2 {
+					if !bad {
+						fail("gen_check: checkCircularDependencies cannot be evaluated: %v", err)
+					}
+					bad = true
+					continue
+				}
+				if want := len(res); k != want && !(k < want && !isNilVal(vs[1])) {
+					fail("gen_check: checkCircularDependencies analysed %d roots for %d unrelated targets", k, want)
+				}
+				n, _ := vs[0].(int64)
+				var ps []string
+				for _, x := range res {
+					ps = append(ps, fmt.Sprintf("(%s, %s)", coqZint(x.n), coqBool(x.err)))
+				}
+				crow = append(crow, fmt.Sprintf("([%s], (%s, %s))", strings.Join(ps, "; "), coqZint(n), coqBool(!isNilVal(vs[1]))))
+			}
+			if bad {
+				crow = nil
+			}
+			emitTable(&tb, "checkCircularDependencies_table", "list (Z * bool) * (Z * bool)", crow)
+		}
+
 		// ---- merge sentinels in package service ---------------------------------------------
 		b.WriteString("\n(* service: MergeConfig sentinels (a request value equal to the sentinel counts as \"not given\") *)\n")
 		mc := findFunc(svc, "config_loader.go", "ConfigurationLoaderImpl", "MergeConfig")
@@ -675,9 +809,11 @@ func init() {
 		writeGen("CheckTables.v", tb.String())
 
 		for _, f := range []string{"runCheck", "determineEnabledAnalyses", "containsAnalysis", "validateSelectedAnalyses",
-			"checkComplexity", "checkDeadCode", "checkClones", "checkCircularDependencies", "checkMockdata", "CreateCobraCommand"} {
+			"checkComplexity", "checkDeadCode", "checkClones", "checkCircularDependencies", "checkCircularDependenciesIn", "checkMockdata",
+			"CreateCobraCommand"} {
 			recordDigest(cmd, "check.go", "CheckCommand", f)
 		}
+		recordDigest(cmd, "check.go", "", "dependencyProjectRoots")
 		recordDigest(cmd, "main.go", "", "main")
 		recordDigest(svc, "config_loader.go", "ConfigurationLoaderImpl", "MergeConfig")
 		recordDigest(svc, "config_loader.go", "ConfigurationLoaderImpl", "LoadDefaultConfig")
